@@ -193,7 +193,7 @@ class CorePortView:
             self.log.append(("r", a, S[self.i_rd], 0))
 
     def idle(self):
-        return not self.wq and not self.rq and not self.dram.wq and not self.dram.rq
+        return not self.wq and not self.rq and not self.dram.busy()
 
     def read_word(self, a):
         return self.dram.read_key(self.tb.amap.fwd_c(a & self.amask))
@@ -524,7 +524,9 @@ def run_core(scn, want=("c01", "c02", "c03", "c04", "c05", "c06")):
                 last_prog_cyc = cyc
             elif cyc - last_prog_cyc > stall_cap and not all(m.idle() for m in masters) and not cap_override:
                 break
-        if all(m.idle() for m in masters) or (until0 and masters[0].idle() and cyc >= until0):
+        # quiet = every master has nothing outstanding AND the controller owes nothing (a write accepted by the crossbar can still sit
+        # in a bank machine behind a refresh long after its data was taken from the user port)
+        if (all(m.idle() for m in masters) and not dram.busy()) or (until0 and masters[0].idle() and cyc >= until0):
             if quiet is None:
                 quiet = cyc
             elif cyc - quiet > scn.get("limits", {}).get("tail", 40) and cyc >= scn.get("limits", {}).get("min_cycles", 0):
